@@ -45,7 +45,7 @@ AcksOf(arr) == [n \in {e.a : e \in SeqRange(arr)} |->
 
 CfgOf(c) == [max |-> c.max_weight, shards |-> c.shards, qsize |-> c.qsize, pool |-> c.pool, buffer |-> c.buffer,
              wf_base |-> c.wf_base, wf_mod |-> IF c.wf_mod < 1 THEN 1 ELSE c.wf_mod, wf_ttl |-> c.wf_ttl,
-             clock0 |-> c.clock0, hash |-> c.hash, dwf |-> c.default_weight_fn]
+             clock0 |-> c.clock0, hash |-> c.hash, dwf |-> c.default_weight_fn, counters |-> c.counters]
 
 HasEv(r, name) == \E i \in DOMAIN r.ev : r.ev[i].e = name
 EvF(r, name) == r.ev[CHOOSE i \in DOMAIN r.ev : r.ev[i].e = name /\ \A j \in DOMAIN r.ev : r.ev[j].e = name => i <= j].f
@@ -116,7 +116,7 @@ DivFields(P, A, r, predRet) ==
 (* the trace machine *)
 
 Init == l = 1 /\ st = [none |-> TRUE] /\ gh = [none |-> TRUE] /\ pred = [none |-> TRUE] /\ rep = [div |-> <<>>, verdicts |-> <<>>, steps |-> 0, runs |-> 0,
-                                                                       unmodelled |-> {}, ndiv |-> 0, nverd |-> 0, oor |-> 0]
+                                                                       unmodelled |-> {}, ndiv |-> 0, nverd |-> 0, oor |-> 0, sites |-> [x \in {} |-> 0]]
 
 MaxKept == 40
 
@@ -133,7 +133,7 @@ Merge(acc, new, run, i) ==
 DoReset(r) ==
   LET S0 == InitState(CfgOf(r.cfg), DOMAIN r.pc)
   IN /\ st' = Adopted(S0, r)
-     /\ gh' = GhostInit(st')
+     /\ gh' = GhostPreload(GhostInit(st'), r.freq, st'.cfg)
      /\ pred' = [none |-> TRUE]
      /\ rep' = [rep EXCEPT !.runs = @ + 1]
 
@@ -193,6 +193,7 @@ DoStep(r) ==
                              ELSE @,
                      !.unmodelled = IF ~isEnv /\ ~known THEN @ \cup {r.site} ELSE @,
                      !.oor = @ + (IF oor THEN 1 ELSE 0),
+                     !.sites = [x \in DOMAIN @ \cup {r.site} |-> IF x = r.site THEN (IF x \in DOMAIN @ THEN @[x] ELSE 0) + 1 ELSE @[x]],
                      !.nverd = @ + Len(newV),
                      !.verdicts = Merge(@, newV, r.run, r.i)]
 
